@@ -6,6 +6,7 @@ c R-EFFECT per-cursor bookkeeping lists handed to sibling cursors are copies (no
 d        Sec-truncated labels keep every variant that ends at or before the Sec codon
 """
 import ast
+import re
 from sa.model import unparse, norm_stmt, call_name, kwarg, walk_no_nested, AnalysisError
 from sa.cfg import CFG, iteration_paths
 from sa import guards as G
@@ -174,6 +175,11 @@ def run(chk, repo):
     chk.rule('C03.h', '(shared with C09.b) W2F ids named in a header are exactly those of the substituted combination', 1)
     chk.clauses.append('C03.h the W2F identifiers appended to a label are those of the combination applied to the sequence (not of every candidate position)')
     w2f_label(chk, repo, 'C03.h')
+    from rules.shared import copy_own_containers
+    chk.clauses.append('C03.i (R-EFFECT) PVGOrf.copy() gives every copy its own start-gain / cleavage-gain sets: labels added on one traversal branch never leak into a sibling branch')
+    copy_own_containers(chk, repo, 'C03.i', ['svgraph.PVGOrf:PVGOrf', 'svgraph.PVGNode:PVGNode'], floor=2)
+    sec_split_rebase(chk, repo, 'C03.j')
+
 
 def sec_variant_filter(chk, repo, rid):
     """Sec-truncated peptides keep every variant ending at or before the Sec codon start (shared with C01.e)."""
@@ -206,3 +212,60 @@ def leading_node_sibling(chk, repo, rid):
                    f"{f.name} calls add_miscleaved_sequences with leading_node={unparse(a) if a is not None else 'missing (defaults to the truncated copy)'}: "
                    "its sibling traversals pass the in-graph node; the upstream-indel map is keyed by that node, so indels on the outgoing edge vanish from the header",
                    key=f"{f.qual}::leading_node", fn=f.qual)
+
+def sec_split_rebase(chk, repo, rid):
+    """When a PVG node is split / truncated at `index`, the Sec positions that go to the RIGHT part are re-based by -index exactly
+    once (in split_selenocysteines or at the call site - never in neither, never in both) and those that stay LEFT are not moved.
+    A Sec position that is off by the split index truncates the peptide at the wrong residue while the label still says SECT-<pos>."""
+    chk.rule(rid, 'R-SIBLING: Sec positions moved to the right part of a split node are re-based by -index exactly once at every call site', 3)
+    chk.clauses.append('C03.j selenocysteine positions of the right part of a split / truncated PVG node are shifted by -index exactly once (helper + caller), those of the left part never')
+    h = repo.func('svgraph.PVGNode:PVGNode.split_selenocysteines')
+    chk.uses(h)
+    hp = [a.arg for a in h.node.args.args if a.arg != 'self']
+    if len(hp) != 1 or not any(isinstance(r, ast.Return) and isinstance(r.value, ast.Tuple) and len(r.value.elts) == 2 for r in ast.walk(h.node)):
+        chk.undecided(rid, 'split_selenocysteines', h.where, 'the helper no longer takes one index and returns a pair', key=h.qual + '::shape', fn=h.qual)
+        return
+    ret = next(r for r in ast.walk(h.node) if isinstance(r, ast.Return) and isinstance(r.value, ast.Tuple))
+    names = [unparse(e) for e in ret.value.elts]
+
+    def shifts_in(fn, listname, idx):
+        """how many times elements put into `listname` are shifted by -idx inside fn (0 or 1), None if unclear"""
+        n = []
+        for c in ast.walk(fn):
+            if isinstance(c, ast.Call) and isinstance(c.func, ast.Attribute) and c.func.attr in ('append', 'extend') and unparse(c.func.value) == listname and c.args:
+                n.append(1 if re.search(r'\.shift\(-\(?' + re.escape(idx) + r'\)?\)', unparse(c.args[0])) else (None if '.shift(' in unparse(c.args[0]) else 0))
+            if isinstance(c, ast.Assign) and unparse(c.targets[0]) == listname and isinstance(c.value, (ast.ListComp,)):
+                n.append(1 if re.search(r'\.shift\(-\(?' + re.escape(idx) + r'\)?\)', unparse(c.value.elt)) else (None if '.shift(' in unparse(c.value) else 0))
+        if not n or None in n or len(set(n)) != 1:
+            return None
+        return n[0]
+    h_left, h_right = shifts_in(h.node, names[0], hp[0]), shifts_in(h.node, names[1], hp[0])
+    if h_left is None or h_right is None:
+        chk.undecided(rid, 'split_selenocysteines', h.where, 'cannot tell whether the helper re-bases the positions', key=h.qual + '::shape', fn=h.qual)
+        return
+    n_sites = 0
+    for f in repo.funcs_in('svgraph.PVGNode'):
+        for st in ast.walk(f.node):
+            if isinstance(st, ast.Assign) and isinstance(st.value, ast.Call) and call_name(st.value) == 'split_selenocysteines' and isinstance(st.targets[0], ast.Tuple) \
+                    and len(st.targets[0].elts) == 2 and len(st.value.args) == 1:
+                n_sites += 1
+                L, R = (unparse(e) for e in st.targets[0].elts)
+                idx = unparse(st.value.args[0])
+                uses = {L: [], R: []}
+                for a in ast.walk(f.node):
+                    if isinstance(a, ast.Assign) and isinstance(a.targets[0], ast.Attribute) and a.targets[0].attr == 'selenocysteines':
+                        for nm in (L, R):
+                            if any(isinstance(x, ast.Name) and x.id == nm for x in ast.walk(a.value)):
+                                t = unparse(a.value)
+                                if t == nm:
+                                    uses[nm].append(0)
+                                elif re.fullmatch(r'\[(\w+)\.shift\(-\(?' + re.escape(idx) + r'\)?\) for \1 in ' + re.escape(nm) + r'\]', t):
+                                    uses[nm].append(1)
+                                else:
+                                    uses[nm].append(None)
+                ok = uses[L] == [0 - h_left + 0] and uses[R] == [1 - h_right] if h_left == 0 else False
+                chk.ob(rid, f"{f.qual}: Sec positions of the right part re-based by -{idx} exactly once, left part untouched", repo.loc(f, st), ok,
+                       f"{f.name}: helper shifts (left {h_left}, right {h_right}) + this call site shifts (left {uses[L]}, right {uses[R]}): the right part must be "
+                       "shifted exactly once and the left part never - a Sec position off by the split index cuts the peptide at the wrong residue under an unchanged SECT label",
+                       key=f"{f.qual}::sec-rebase", fn=f.qual)
+    chk.extra['sec_split_sites'] = n_sites
